@@ -170,7 +170,7 @@ PROPS = {
         'trusted_base': ['/proc/self/fd, /proc/self/maps, /proc/self/task, mallinfo2 (glibc tcache disabled through GLIBC_TUNABLES so that in-use bytes are exact)', 'MTBL_VERIF hook (small sorter chunks), mkstemp/clock shims'],
         'assumptions': ['well-formed usage: no call on a destroyed object; borrowers are destroyed before what they borrow (iterators before their source, mergers before the sources added, writers and sorters before their pool)',
                         'heap: a scenario that destroys all its objects is repeated four times in one process; a leak is reported when the in-use bytes grow in both of the last two repetitions (constant one-time allocations of libc/OCaml are thereby ignored)',
-                        'T18_all_destroyed_clean is about the operational model (model/Res*.v), written by following the C control flow; its tie to the code: source ties of the functions it follows + per-step comparison of its obs with /proc in the writer, reader, merger and non-pooled sorter scenarios; the static footprints (T18a, model/Ledger.v) are compared in every scenario',
+                        'T18_all_destroyed_clean is about the operational model (model/Res*.v), written by following the C control flow; its tie to the code: source ties of the functions it follows + per-step comparison of its obs with /proc in the writer, reader, merger, non-pooled sorter and fileset (dup, reloads, either destruction order) scenarios; the static footprints (T18a, model/Ledger.v) are compared in every scenario',
                         'a pooled sorter whose merge callback failed makes mtbl_sorter_iter assert (observation O3); such histories are not generated'],
         'explanation': 'Operational model: per API call the ordered acquisitions and releases of the C function incl. failure paths; T18_all_destroyed_clean for all histories and outcomes; the pre-repair sorter code refuted in the same model. Ledger model: footprint of every object kind in descriptors / file mappings / temp files / handler threads; T18a: every created object destroyed => ledger empty. Engine lk: scenarios over writers, readers, iterators abandoned undrained, mergers, sorters (destroyed before/after iteration, with jobs in flight, after failing merge, after a refused sorter_write), filesets with dups and reloads, shared pools; observed vs ledger after every step, all-zero at the end, no heap growth over repetitions.',
     },
